@@ -1,8 +1,11 @@
 import ArgMapper.Props.C05
+import ArgMapper.Proofs.CompleteAcyclicStatic
 /-!
 # C05 (continued) — clause (b): acyclic converter sets in which every converter can be satisfied
 
-Property theorem only.  Subtype-free fragment as in `complete_single`, but converters may take any
+Property theorem only (helper lemmas in `ArgMapper/Proofs/CompleteAcyclic.lean` — the walk invariants
+for converters with any number of inputs, the nested searches by induction on the fuel — and
+`ArgMapper/Proofs/CompleteAcyclicStatic.lean` — the shape of the graph).  Subtype-free fragment as in `complete_single`, but converters may take any
 number of inputs.  Premise of clause (b), stated on the pruned call graph: it has no cycle, and every
 converter that survived pruning has all its own requirement vertices in the graph.  For **every
 oracle** (requirement order, root-first real paths), every behaviour and enough fuel the call ends in
@@ -36,6 +39,15 @@ theorem complete_acyclic (e : TypeEnv) (ht : ImplTrans e)
     let r := callWith (C01.stdCtx e b funcs target beh) (callGraph {} e b funcs target false none) target fuel
               (initSt (callGraph {} e b funcs target false none).cg memo orc)
     (∃ res, r.1 = .ok res) ∨ (∃ ε, r.1 = .convErr ε) ∨ (∃ ε res, r.1 = .targetErr ε res) ∨ (∃ w, r.1 = .badOracle w) := by
-  sorry
+  intro r
+  have _ := hkey  -- not needed: nothing distinguishes the target's vertex in the proof
+  obtain ⟨rank, hrank⟩ := hacyc
+  have H : CompleteAcyclic.HypsA e b funcs target := ⟨hc, hsf.1, hsf.2.1, hsf.2.2, htk, hwf⟩
+  rcases CompleteAcyclic.complete_core H ht hsat rank hrank hall beh False (fun h => h.elim) fuel hfuel memo
+    (fun h => h.elim) orc with h | ⟨h, _⟩ | ⟨h, _⟩ | h
+  · exact Or.inl h
+  · exact Or.inr (Or.inl h)
+  · exact Or.inr (Or.inr (Or.inl h))
+  · exact Or.inr (Or.inr (Or.inr h))
 
 end ArgMapper.C05
